@@ -48,7 +48,7 @@ def child(mod, job_fd: int, res_fd: int) -> None:
     faulthandler.dump_traceback_later(float(job.get("cap", 120)), exit=True)
     try:
         res = mod.run_job(job)
-        payload = json.dumps(res).encode()
+        payload = json.dumps(res, default=str).encode()
         kind = b"R"
     except BaseException:  # noqa: BLE001 - harness failure, reported as such
         payload = traceback.format_exc().encode()
